@@ -1192,8 +1192,12 @@ class Executor:
         self._logger.debug(
             f"Waiting for any entry in array slice {array_slice} to become defined"
         )
+        # The registers of the slice are read once, when the wait starts (as wait_all does):
+        # other subroutines of the application may change them while this one waits
+        address, index = self._expand_array_part(app_id=app_id, array_part=array_slice)
         while True:
-            values = self._get_array_slice(app_id=app_id, array_slice=array_slice)
+            values = self._app_arrays[app_id][address, index]
+            assert (values is None) or isinstance(values, list)
             if values is None:
                 raise RuntimeError(f"array slice {array_slice} does not exist")
             if all(value is None for value in values):
@@ -1211,8 +1215,11 @@ class Executor:
         array_entry = instr.entry
         app_id = self._get_app_id(subroutine_id=subroutine_id)
         self._logger.debug(f"Waiting for array entry {array_entry} to become defined")
+        # The index register is read once, when the wait starts (as wait_all does)
+        address, index = self._expand_array_part(app_id=app_id, array_part=array_entry)
         while True:
-            value = self._get_array_entry(app_id=app_id, array_entry=array_entry)
+            value = self._app_arrays[app_id][address, index]
+            assert (value is None) or isinstance(value, int)
             if value is None:
                 output = self._do_wait()
                 if isinstance(output, GeneratorType):
